@@ -195,7 +195,7 @@ def regions(draw):
     nm = draw(st.lists(names(), min_size=nch, max_size=nch, unique=True))
     lens = [draw(st.one_of(st.integers(1, 100), st.integers(1, 2**31 - 1))) for _ in nm]
     cs = dict(zip(nm, lens))
-    kind = draw(st.sampled_from(["ok", "ok", "ok", "beyond", "unknown", "reversed", "negative"]))
+    kind = draw(st.sampled_from(["ok", "ok", "ok", "beyond", "unknown", "reversed", "negative", "start-beyond-open", "neg-end-open-start"]))
     form = draw(st.sampled_from(["tuple", "string", "series"]))
     c = draw(st.sampled_from(nm))
     L = cs[c]
@@ -211,6 +211,13 @@ def regions(draw):
         c = draw(names().filter(lambda x: x not in cs))
         a, b = draw(st.one_of(st.none(), st.just(0))), draw(st.one_of(st.none(), st.just(1)))
         expect = "error"
+    elif kind == "start-beyond-open":
+        a, b = L + draw(st.integers(1, 2000)), None       # the default end (chromosome length) lies before the start
+        expect = "error"
+    elif kind == "neg-end-open-start":
+        a, b = None, -draw(st.integers(1, 100))
+        expect = "error"
+        form = "tuple"
     elif kind == "reversed":
         b = draw(st.integers(0, max(0, L - 1)))
         a = b + draw(st.integers(1, 50))
